@@ -494,6 +494,9 @@ func (s *SMT) literalHooks() []string {
 		if want["isempty"] {
 			out = append(out, fmt.Sprintf("(assert (= (isempty %s) %s))", n, b(len(v) == 0)))
 		}
+		if want["firstbyte"] && len(v) >= 1 {
+			out = append(out, fmt.Sprintf("(assert (= (bget %s 0) %d))", n, v[0]))
+		}
 	}
 	if want["hasprefix"] {
 		for _, a := range s.strOrder {
